@@ -569,6 +569,11 @@ func (f *Field) applyOptions(opt FieldOptions) error {
 		f.options.TimeQuantum = ""
 		f.options.Keys = opt.Keys
 	case FieldTypeInt:
+		// A bit depth of zero in the meta file marks the v1 BSI format (see
+		// loadMeta), so a field of the current format uses at least one bit.
+		if opt.BitDepth == 0 {
+			opt.BitDepth = 1
+		}
 		f.options.Type = opt.Type
 		f.options.CacheType = CacheTypeNone
 		f.options.CacheSize = 0
